@@ -12,7 +12,24 @@ from .ctx import Ctx, MachineryError
 from .tlc import TLCError
 
 
+def _limit_memory():
+    """A change to pycoin that makes it allocate without bound must end as a MemoryError inside the
+    case being executed (reported as a violation), not as the kernel killing the whole check.
+    Soft limit only; vf.tlc lifts it again for the JVM."""
+    try:
+        import resource
+        gb = float(os.environ.get("VERIF_MEM_GB", "16"))
+        soft, hard = resource.getrlimit(resource.RLIMIT_AS)
+        want = int(gb * (1 << 30))
+        if hard != resource.RLIM_INFINITY:
+            want = min(want, hard)
+        resource.setrlimit(resource.RLIMIT_AS, (want, hard))
+    except Exception:  # noqa
+        pass
+
+
 def main(argv=None):
+    _limit_memory()
     ap = argparse.ArgumentParser()
     ap.add_argument("pid")
     ap.add_argument("--tier", default=os.environ.get("VERIF_TIER", "quick"), choices=["quick", "thorough"])
